@@ -51,7 +51,20 @@ type LoadConfig struct {
 }
 
 func Load(lc LoadConfig) (*Prog, error) {
-	env := append([]string{}, os.Environ()...)
+	env := []string{}
+	const pinned = "/opt/veriftools/go1.26.8/bin"
+	for _, kv := range os.Environ() {
+		if strings.HasPrefix(kv, "PATH=") {
+			if _, err := os.Stat(pinned); err == nil && !strings.HasPrefix(kv, "PATH="+pinned) {
+				kv = "PATH=" + pinned + ":" + kv[5:]
+			}
+			os.Setenv("PATH", kv[5:]) // go/packages resolves "go" through the process PATH
+		}
+		if strings.HasPrefix(kv, "GOOS=") || strings.HasPrefix(kv, "GOARCH=") || strings.HasPrefix(kv, "GOFLAGS=") || strings.HasPrefix(kv, "GOWORK=") {
+			continue
+		}
+		env = append(env, kv)
+	}
 	env = append(env, "GOFLAGS=-mod=mod", "GOPROXY=off", "GOSUMDB=off", "GOTOOLCHAIN=local", "GOWORK=off", "CGO_ENABLED=0")
 	if lc.GOOS != "" {
 		env = append(env, "GOOS="+lc.GOOS)
